@@ -38,7 +38,9 @@ impl Parsed {
 }
 
 pub fn parse(text: &[u8], buflen: usize) -> Result<Result<Parsed, (String, String)>, PanicInfo> {
-    let mut g = Guarded::new(buflen, 0, under_miri());
+    // the output buffer has prior contents (a re-used scratch buffer): every byte of the result must be written
+    let fill = [0x00u8, 0xFF, 0xAA, 0x55, 0x01][(fnv(text) % 5) as usize];
+    let mut g = Guarded::new(buflen, fill, under_miri());
     let r = catch(|| match Filter::from_json(text, g.slice()) {
         Ok((consumed, outlen, f)) => {
             let _ = outlen;
